@@ -13,7 +13,7 @@ import (
 
 var theApp *simapp.SekaiApp
 
-func appOf(w *world) *simapp.SekaiApp { return theApp }
+func appOf(w *world) *simapp.SekaiApp { return w.app }
 
 func mustTm(pk cryptotypes.PubKey) tmcrypto.PubKey {
 	t, err := cryptocodec.ToTmPubKeyInterface(pk)
@@ -338,6 +338,95 @@ func witnesses(g int) []witness {
 			x.claim(a, a, true)
 			x.claim(b, a, true)
 			x.end()
+		}},
+		{"rotation-clean", 0, func(x *hist, r *hx.Rng) {
+			setup(x, a, b)
+			x.newBlock(5)
+			x.allSign()
+			x.rotate(a, c) // the record of a moves to the unused address c
+			x.ownerMsg("pause", a) // the old address is nobody now
+			x.ownerMsg("pause", c)
+			x.end()
+			x.newBlock(5)
+			x.allSign()
+			x.ownerMsg("unpause", c)
+			x.claim(a, a, false)
+			x.end()
+			x.newBlock(5)
+			x.allSign()
+			x.end()
+		}},
+		{"rotation-while-in-removing-queue", 0, func(x *hist, r *hx.Rng) {
+			setup(x, a, b)
+			x.newBlock(5)
+			x.allSign()
+			x.ownerMsg("pause", a)
+			x.rotate(a, c)
+			x.end()
+		}},
+		{"rotation-while-in-reactivating-queue", 0, func(x *hist, r *hx.Rng) {
+			setup(x, a, b)
+			x.newBlock(5)
+			x.allSign()
+			x.ownerMsg("pause", a)
+			x.end()
+			x.newBlock(5)
+			x.allSign()
+			x.ownerMsg("unpause", a)
+			x.rotate(a, c)
+			x.end()
+		}},
+		{"rotation-of-jailed-loses-jail-record", 0, func(x *hist, r *hx.Rng) {
+			setup(x, a, b)
+			x.newBlock(5)
+			x.allSign()
+			x.evidence([][3]int64{{int64(a), x.h - 1, x.t - 5}})
+			x.end()
+			x.newBlock(5)
+			x.allSign()
+			x.rotate(a, c)
+			x.proposal("unjail", c) // inside the window, but the jail record stayed under the old address
+			x.proposal("unjail", a)
+			x.end()
+		}},
+		{"genesis-export-import", 0, func(x *hist, r *hx.Rng) {
+			setup(x, a, b, c)
+			x.newBlock(5)
+			x.allSign(int64(b))
+			x.ownerMsg("pause", a)
+			x.end()
+			x.newBlock(5)
+			x.allSign(int64(b))
+			x.evidence([][3]int64{{int64(c), x.h - 1, x.t - 5}})
+			x.end()
+			x.genesis() // a PAUSED, b INACTIVE, c JAILED, g ACTIVE
+			x.newBlock(100)
+			x.allSign()
+			x.ownerMsg("unpause", a)
+			x.ownerMsg("activate", b)
+			x.proposal("unjail", c) // inside the window, but the jail record was not exported
+			x.end()
+			x.newBlock(5)
+			x.allSign()
+			x.ownerMsg("pause", b)
+			x.end()
+		}},
+		{"genesis-export-import-mid-block", 0, func(x *hist, r *hx.Rng) {
+			setup(x, a, b)
+			x.newBlock(5)
+			x.allSign()
+			x.ownerMsg("pause", a)
+			x.claim(c, c, true)
+			x.genesis() // queues and pending claims are not exported; the new chain starts from the statuses
+			x.newBlock(5)
+			x.allSign()
+			x.end()
+		}},
+		{"genesis-import-nobody-active", 0, func(x *hist, r *hx.Rng) {
+			x.newBlock(5)
+			x.allSign()
+			x.evidence([][3]int64{{int64(g), x.h - 1, x.t - 5}})
+			x.genesis()
 		}},
 		{"downtime-threshold", 3, func(x *hist, r *hx.Rng) { // MC=1, MaxM=3: inactive at the 5th consecutive miss
 			setup(x, a, b, c)
